@@ -285,6 +285,10 @@ def long_sequences(rng, thorough):
             add("alphabet+outliers", [rng.choice(pal) if rng.random() < 0.93 else rng.randint(-255, 255) for _ in range(n)])
             add("extremes", [rng.choice([-255, 255, -254, 254, 0, 1]) for _ in range(n)])
             add("neg255-heavy", [-255 if rng.random() < 0.4 else rng.randint(-255, 255) for _ in range(n)])
+    # flat distributions over a small range: more than 32 values, quotients <= 2 for a large divisor (truncated GRC, w_cfg 9..11)
+    for r in (11, 17, 20, 23, 40, 47, 63, 90):
+        for n in (300, 1000):
+            add("uniform-range%d" % r, [rng.randint(-r, r) for _ in range(n)])
     # exact palette sizes (uncompressed index mode needs all values inside the palette)
     for k in range(1, 35):
         pal = rng.sample(range(-255, 256), k)
@@ -391,6 +395,27 @@ def run_replay(ck, path, ext):
     rp = rec["replay"]
     job = None
     sanit = False
+    if str(rp.get("entry", "")).startswith("mlw_encode inside"):
+        # writer-model stage: observe the plan again, let the model write, compare
+        seq = rp["sequence"]
+        if len(seq) != rp.get("sequence_length", len(seq)):
+            print("replay: the recorded sequence was truncated (%d of %d weights)" % (len(seq), rp["sequence_length"]))
+            sys.exit(2)
+        shim, err = build_plan_shim()
+        if shim is None:
+            print("replay: plan observer does not compile:", err[-400:])
+            sys.exit(1)
+        o = run_shim(shim, [seq], nproc=1)[0]
+        real = bytes(__import__("ethosu.mlw_codec", fromlist=["encode"]).encode(seq)).hex()
+        print("observer:", o[:300])
+        bad = o.count(" ") != 1 or o.startswith(("shim-error", "crash"))
+        if not bad:
+            plan, hx = o.split(" ")
+            a = common.run_model(["mlwenc %s %s" % (plan, csv(seq))])[0]
+            print("Lean writer model:", a[:300])
+            bad = (hx if hx != "-" else "") != real or a != "ok planok=1 " + (hx or "-")
+        print("replay:", "REPRODUCED" if bad else "not reproduced (model, observer and extension agree on this input now)")
+        sys.exit(1 if bad else 0)
     if isinstance(rp.get("job"), dict):
         job, sanit = rp["job"], "report" in rp
     elif "sequence" in rp:
@@ -662,7 +687,7 @@ def main():
         plans_seen = set()
         for k, ((seq, real_hex, spec_ok), o) in enumerate(zip(wjobs, shim_out)):
             evaluations += 1
-            rp = {"entry": "mlw_encode inside harness/c07_plan_shim.c", "sequence": seq[:4000], "sequence_length": len(seq),
+            rp = {"entry": "mlw_encode inside harness/c07_plan_shim.c", "sequence": seq, "sequence_length": len(seq),
                   "real_stream_hex": real_hex[:4096],
                   "replay": "echo '<n> v0 v1 …' | c07_plan_shim ; Lean: mlwenc <plan> <sequence csv>"}
             if k not in lean_out:
